@@ -129,7 +129,7 @@ PROPS['C16'] = dict(
 
 PROPS['C08'] = dict(
     level='proof',
-    units=['range', 'cursor'],
+    units=['range', 'cursor', 'pagenode'],
     explanation='Ranges: Range::next is verified on its real body for a generic R: RangeBounds<&[u8]> (all nine combinations of included / excluded / unbounded) against the '
                 'documented Cursor semantics: everything yielded lies within both bounds and is the entry at the cursor; on the first call no entry that satisfies both bounds is '
                 'skipped; later calls advance by exactly one entry and yield None only at the end or beyond the upper bound; the cursor stays well-formed. '
@@ -142,7 +142,24 @@ PROPS['C08'] = dict(
                'PageNode::index (binary search, slot-before rule) are assumed. Byte-string order is an uninterpreted strict total order.',
     assumptions=[A_TOOLS, 'Cursor::{seek,current,next} by assumed contract over an abstract ascending key sequence', 'byte-string comparison is a strict total order (axiom_key_order); rule R10: `a < *b` on &[u8] compares the slices',
                  'the RangeBounds implementation agrees with its vstd specification (true for every std range type and (Bound, Bound))'],
-    not_covered=['in-order traversal of the tree by Cursor (R2-full; assumed contract)', 'PageNode::index / val / index_page bodies (N2; assumed contract)', 'bucket-only / pair-only filters (R3: generic `for data in self.i.by_ref()` is outside what Verus accepts)'],
+    not_covered=['in-order traversal of the tree by Cursor (R2-full; assumed contract)', 'bucket-only / pair-only filters (R3: generic `for data in self.i.by_ref()` is outside what Verus accepts)'],
+)
+
+A_TREEIF = 'the tree a cursor walks is an abstract interface (prelude/cursor_tree.rs): branch nodes are never empty, children are strictly lower (finite height), the shape does not change while the cursor walks'
+A_ELEMS = 'element headers of mapped pages and their key bytes are stub views of the raw-pointer casts (U17/U18, Leaf/Branch key accessors); layout pinned by K1'
+
+PROPS['C07'] = dict(
+    level='other',
+    units=['pagenode', 'cursor'],
+    explanation='A write transaction reads a MIXTURE of untouched mapped pages and modified in-memory nodes. Proved on the real bodies, for all node contents: '
+                'PageNode::{leaf, len, index_page, index, val} satisfy ONE contract stated over the node view (len, leaf, key(i), child(i)) whichever representation is behind it '
+                '(representation independence: the Page and the Node arm answer by the same specification, incl. the binary-search slot-before rule); Node::insert_data / delete are '
+                'map insert / remove on an ascending entry sequence (what later reads see is exactly the put/delete applied); the cursor code (seek, current, seek_first, next, search) never panics, terminates '
+                'and keeps every stack entry inside its node on any such mixture.',
+    level_text='Unbounded proofs of the per-node read/write operations and of cursor safety; NOT a proof that the composed read API equals a model after every operation.',
+    level_note='The overlay rule itself (InnerBucket::page_node: a page id resolves to the transaction\'s node iff one exists) could not be brought under contract: the real struct is a recursive Rc<RefCell<..>>/HashMap graph; it is an assumed interface of the cursor unit. Bucket-level put/delete/get and nested buckets are not under contract.',
+    assumptions=[A_TOOLS, A_ARITH, A_TREEIF, A_ELEMS, 'RefCell stand-in (sequential view)', 'byte-string order is a strict total order'],
+    not_covered=['InnerBucket::page_node overlay rule (N3)', 'that a cursor visits every entry of a modified tree in order (R2-full); the "emptied non-last leaf hides later keys" behaviour named in the property text is therefore outside this check', 'bucket listing and point lookups through InnerBucket::get'],
 )
 
 PENDING = 'not claimed yet in this build session: deciding units are not built (see DESIGN section 10)'
@@ -152,5 +169,5 @@ NOT_APPLICABLE = {
     'C13': 'quantifies over schedules of OS processes and flock semantics; a sequential contract cannot decide mutual exclusion — DESIGN section 6',
     'C14': 'quantifies over client programs and is decided by rustc borrow/Send checking of each program, not by contracts on jammdb bodies — DESIGN section 6',
 }
-for _p in ['C01', 'C05', 'C07']:
+for _p in ['C01', 'C05']:
     NOT_APPLICABLE.setdefault(_p, PENDING)
